@@ -49,10 +49,10 @@ DerivedKinds == <<"begin", "let", "letstar", "cond", "cond2", "cond3", "case", "
 \* the degenerate shapes: one clause, no clause, one body expression, no binding - each is a rule of its own in an
 \* implementation by rewriting, and is reached by a compound (ticking) key/test only when written directly
 SmallKinds == {"case1e", "case1", "case1a", "case1ea", "cond1", "cond1t", "cond1a", "cond1e", "and0", "and1", "or0", "or1",
-               "when1", "unless1", "begin1", "let0", "letstar0", "letstar1", "or2", "and2"}
+               "when1", "unless1", "begin1", "let0", "letstar0", "letstar1", "or2", "and2", "case1l"}
 \* number of sub-form positions (holes) of each template
 Holes(k) == CASE k \in {"and0", "or0"} -> 0 [] k \in {"and1", "or1", "begin1", "cond1t", "letstar0", "case1a", "case1ea", "cond1a"} -> 1
-              [] k \in {"case1e", "case1", "cond1", "cond1e", "when1", "unless1", "let0", "letstar1", "or2", "and2"} -> 2
+              [] k \in {"case1e", "case1", "cond1", "cond1e", "when1", "unless1", "let0", "letstar1", "or2", "and2", "case1l"} -> 2
               [] k = "begin" -> 3 [] k = "let" -> 3 [] k = "letstar" -> 3 [] k = "cond" -> 5 [] k = "cond2" -> 3 [] k = "cond3" -> 3
               [] k = "case" -> 4 [] k = "case2" -> 3 [] k = "case3" -> 2 [] k = "and" -> 3 [] k = "or" -> 3 [] k = "when" -> 3 [] k = "unless" -> 3
 \* which holes are tests (their truth value is chosen) - the others hold plain values
@@ -93,6 +93,8 @@ Template(k, h, b) ==
     [] k = "and1"    -> And(<<h[1]>>)
     [] k = "or0"     -> Or(<<>>)
     [] k = "or1"     -> Or(<<h[1]>>)
+    \* a single datum that is a list, and a key that is a freshly built list of the same shape: eqv? says no
+    [] k = "case1l"  -> CaseElse(Call("list", <<Num(1), Num(2)>>), <<CClause(<<MkList(<<MkInt(1), MkInt(2)>>)>>, <<h[1]>>)>>, <<h[2]>>)
     [] k = "or2"     -> Or(<<h[1], h[2]>>)
     [] k = "and2"    -> And(<<h[1], h[2]>>)
     [] k = "when1"   -> When(h[1], <<h[2]>>)
